@@ -262,6 +262,12 @@ func (c *contentValidator) ValidatePermissionChange(ch *aclrecordproto.AclAccoun
 		return ErrInsufficientPermissions
 	}
 
+	if currentState.Permissions.NoPermissions() {
+		// joining, declined, canceled and removed accounts hold no read key: they get permissions (and the key)
+		// only through request accept, accounts add or invite join
+		return ErrNoSuchAccount
+	}
+
 	return
 }
 
